@@ -69,8 +69,12 @@ def build(flavour):
     W['top'] = cls()
     W['base'] = cls()
     W['reg'] = cls((W['base'],))
-    for t in 'abcdehgkn':
+    for t in 'abcdehgknt':
         W['f' + t] = F(t)
+    # the third registry is populated from the start, so that one re-basing is
+    # enough to make it matter
+    W['top'].register([W['R0']], W['P'], 't', W['ft'])
+    W['top'].subscribe([W['R0']], W['P'], W['ft'])
     W['NONE'] = None               # provided=None: handlers; required None: any specification
     W['E'] = _empty                # the shared empty declaration (process-wide singleton)
     return W
@@ -105,7 +109,7 @@ for key in (('R1',), ('R0',)):
              ('names', key, 'P'), ('subscriptions', key, 'P')]
 for key in (('D',), ('SK',)):      # a plain declaration / a class specification as key
     LOOK += [('lookup', key, 'P', ''), ('lookupAll', key, 'P'), ('subscriptions', key, 'P')]
-LOOK += [('lookup', ('R1',), 'P', 'n'), ('lookup', ('R1', 'R0'), 'P', ''),
+LOOK += [('lookup', ('R1',), 'P', 'n'), ('lookup', ('R1',), 'P', 't'), ('lookup', ('R1', 'R0'), 'P', ''),
          ('lookup', ('R1', 'Y1'), 'P', ''), ('lookupAll', ('R1', 'Y1'), 'P'),
          ('queryAdapter', 'ob', 'P', ''), ('adapter_hook', 'ob', 'P', ''),
          ('queryMultiAdapter', 'ob', 'P', ''), ('subscribers', 'ob', 'P'),
@@ -339,8 +343,8 @@ def run(ctx):
     for impl in ('c', 'py'):
         for flavour in FLAVOURS:
             for shape in shapes:
-                if quick and flavour == 'verifying' and shape == 'LMMs':
-                    continue        # quick: the third shape on the push-invalidated flavour only
+                if quick and flavour == 'verifying' and shape == 'LMMs' and impl == 'py':
+                    continue        # quick: the third shape of the verifying flavour on the C implementation only
                 res = ctx.map(impl, 'evaluate',
                               [(flavour, shape, p, nparts) for p in range(nparts)])
                 tot = 0
